@@ -760,10 +760,16 @@ Qed.
 
 Lemma T_READER_not_main r : T_READER r <> T_MAIN.
 Proof. unfold T_READER, T_MAIN. lia. Qed.
+Lemma T_READER_not_flush r : T_READER r <> T_FLUSH.
+Proof. unfold T_READER, T_FLUSH. lia. Qed.
+Lemma T_COMPACT_not_main j : T_COMPACT j <> T_MAIN.
+Proof. unfold T_COMPACT, T_MAIN. lia. Qed.
+Lemma T_COMPACT_not_flush j : T_COMPACT j <> T_FLUSH.
+Proof. unfold T_COMPACT, T_FLUSH. lia. Qed.
 
 Theorem InvM_step s ev : InvM s -> InvM (step s ev).
 Proof.
-  intros [HM HP]. destruct ev as [sums rolls tm|t| |x roll|ins outs roll hold| |r|r| | |ok| ]; cbn [step].
+  intros [HM HP]. destruct ev as [sums rolls tm|t| |x roll|j ins outs roll hold|j|r|r| | |ok| ]; cbn [step].
   - (* EOpen *)
     destruct (s_p s) as [p|] eqn:Ep; [split; [exact HM|now rewrite Ep]|].
     match goal with |- InvM (if ?c then _ else _) => destruct c end; [|split; [exact HM|now rewrite Ep]].
@@ -863,8 +869,8 @@ Proof.
     destruct (p_ready p) eqn:Er; [|discriminate].
     destruct (HP p eq_refl) as [PI PH]. split; cbn [s_fs s_frags s_v s_p upd_p upd_fs]; [exact HM|].
     intros p' [= <-]. split.
-    + apply PcInv_spawn; [discriminate|assumption|exact PI].
-    + unfold main_pc. rewrite pc_get_set_other by discriminate. intros Hno.
+    + apply PcInv_spawn; [apply T_COMPACT_not_main|assumption|exact PI].
+    + unfold main_pc. rewrite pc_get_set_other by (intros E; symmetry in E; exact (T_COMPACT_not_main j E)). intros Hno.
       apply (Hd_frame (s_fs s) _ p); try reflexivity. now apply PH.
   - (* EMove *)
     destruct (s_p s) as [p|] eqn:Ep; [|split; [exact HM|now rewrite Ep]].
@@ -872,8 +878,8 @@ Proof.
     destruct (p_ready p) eqn:Er; [|discriminate].
     destruct (HP p eq_refl) as [PI PH]. split; cbn [s_fs s_frags s_v s_p upd_p upd_fs]; [exact HM|].
     intros p' [= <-]. split.
-    + apply PcInv_spawn; [discriminate|assumption|exact PI].
-    + unfold main_pc. rewrite pc_get_set_other by discriminate. intros Hno.
+    + apply PcInv_spawn; [apply T_COMPACT_not_main|assumption|exact PI].
+    + unfold main_pc. rewrite pc_get_set_other by (intros E; symmetry in E; exact (T_COMPACT_not_main j E)). intros Hno.
       apply (Hd_frame (s_fs s) _ p); try reflexivity. now apply PH.
   - (* ETake *)
     destruct (s_p s) as [p|] eqn:Ep; [|split; [exact HM|now rewrite Ep]].
